@@ -8,6 +8,7 @@ device with ITS keys, call results) are appended to `self.trace` in the alphabet
 from __future__ import annotations
 
 import asyncio
+import datetime as _dt
 
 from . import vloop, landev, refcrypto as rc
 from .common import B
@@ -36,7 +37,7 @@ REPLY_CLASSES_V2 = ["valid", "badsig", "garbage", "signed_garbage", "none", "val
 FIELDS = {"call": ("e", "op", "cr"), "connreq": ("e",), "close": ("e", "c"), "connok": ("e", "c"), "connrefuse": ("e",), "connhang": ("e",),
           "tx": ("e", "c", "t", "ctr", "tok", "k", "wf", "reply"), "ret": ("e", "op", "r", "n", "stored"),
           "deliver": ("e", "c", "m", "k", "gen", "live", "i"), "devcall": ("e", "op"), "devret": ("e", "op", "raised", "online", "frames"), "lost": ("e", "c", "m", "i"), "peerclose": ("e", "c"),
-          "jumpauth": ("e",), "jumphalf": ("e",), "jumplife": ("e",), "timer": ("e",), "cancel": ("e",)}
+          "jumpauth": ("e",), "jumphalf": ("e",), "setlife": ("e",), "jumplife": ("e",), "timer": ("e",), "cancel": ("e",)}
 
 
 def norm_event(e):
@@ -160,6 +161,11 @@ class Session:
                 q = bytearray(landev.v3_plain_packet(1, 0, (body + bytes(range(1, 40)))[:int(n)]))
                 q[5] = (int(hi) << 4) | 1
                 park(bytes(q), "HSR", k, False)
+            elif cls.startswith("split:"):                # the genuine reply reaches the client in two TCP segments cut after n bytes
+                n = int(cls[6:])
+                park(p[:n], "OTHER")
+                park(p[n:], "HSR", k, True)
+                out[-1]["whole"] = bytes(p)               # what the receiver has once this segment has arrived
             elif cls.startswith("cut:"):                  # the transport delivers only the first n bytes of the reply, then nothing more
                 park(p[:int(cls[4:])], "OTHER")
             elif cls.startswith("type:"):                 # another packet type nibble in place of the reply
@@ -441,7 +447,7 @@ class Session:
         fut.set_result("ok" if how == "ok" else "refuse")
         self.loop.run_idle()
         if how == "ok":
-            self.conn_time[len(self.net.conns)] = vloop.VClock.now().timestamp()
+            self.conn_time[len(self.net.conns)] = vloop.VClock.now(_dt.timezone.utc).timestamp()
             return self._collect({"e": "connok", "c": len(self.net.conns)})
         return self._collect({"e": "connrefuse"})
 
@@ -453,7 +459,9 @@ class Session:
         cur = self.lan._protocol is not None and getattr(self.lan._protocol, "_transport", None) is tr
         # "proof under the presented key" is a fact about the message AND the call that receives it: a reply produced for an earlier call (good
         # credentials) that reaches a later call presenting other credentials proves nothing to that call
-        m["obs"] = self._observe(m["data"])
+        m["obs"] = self._observe(m.get("whole", m["data"]))
+        if self.version == 3 and m["cls"] == "HSR":
+            m["gen"] = bool(m["gen"] and m["obs"]["ty"] == 1 and m["obs"]["ln"] == 64 and m["obs"]["proof"])     # genuine FOR THE CALL that receives it
         fed = tr.feed(m["data"])
         self.loop.run_idle()
         return self._collect({"e": "deliver", "c": m["conn"] + 1, "m": m["cls"], "k": m["k"], "gen": bool(m["gen"]), "live": bool(fed), "i": i + 1,
@@ -497,10 +505,15 @@ class Session:
         vloop.VClock.offset += 6 * 3600 + 1
         return self._collect({"e": "jumphalf"})
 
+    def setlife(self):
+        """The user configures the same maximum connection lifetime once more."""
+        self.obj.set_max_connection_lifetime(self.lifetime) if hasattr(self.obj, "set_max_connection_lifetime") else setattr(self.lan, "max_connection_lifetime", self.lifetime)
+        return self._collect({"e": "setlife"})
+
     def jumplife(self):
         """The wall clock jumps to just past (instant the current connection was established) + max_connection_lifetime."""
         t_conn = self.conn_time.get(len(self.net.conns), None)
-        now = vloop.VClock.now().timestamp()
+        now = vloop.VClock.now(_dt.timezone.utc).timestamp()
         target = (t_conn + (self.lifetime or 0) + 1) if t_conn is not None else now + (self.lifetime or 0) + 1
         vloop.VClock.offset += max(target - now, 1.0)
         return self._collect({"e": "jumplife"})
